@@ -1,8 +1,30 @@
 (** Evaluator glue for C07: replays a whole history on the model and compares
     every search response and the shape of the state with what the real
     queryLog did. *)
-From AGH Require Export Base.Run Model.QLogFile Model.QLog.
+From Coq Require Export Uint63.
+From AGH Require Export Base.Run Model.QLogFile Model.QLog Model.QLogCodec.
 Local Open Scope Z_scope.
+
+(** Byte strings are printed packed, seven bytes to a primitive integer
+    ([len + 8 * little-endian bytes]): list literals of N are slow to elaborate. *)
+Definition bitn (x i : Uint63.int) (w : N) : N :=
+  if Uint63.eqb (Uint63.land (Uint63.lsr x i) 1) 0 then 0%N else w.
+Definition byte_of (x : Uint63.int) : N :=
+  (bitn x 0 1 + bitn x 1 2 + bitn x 2 4 + bitn x 3 8 + bitn x 4 16 + bitn x 5 32 + bitn x 6 64 + bitn x 7 128)%N.
+Fixpoint bytes_of (len : nat) (x : Uint63.int) : bytes :=
+  match len with
+  | O => []
+  | S l => byte_of x :: bytes_of l (Uint63.lsr x 8)
+  end.
+Definition len_of (x : Uint63.int) : nat :=
+  let l := Uint63.land x 7 in
+  if Uint63.eqb l 0 then 0 else if Uint63.eqb l 1 then 1 else if Uint63.eqb l 2 then 2
+  else if Uint63.eqb l 3 then 3 else if Uint63.eqb l 4 then 4 else if Uint63.eqb l 5 then 5
+  else if Uint63.eqb l 6 then 6 else 7.
+Inductive il := I0 | IC (x : Uint63.int) (l : il).
+Arguments IC x%uint63_scope l.
+Fixpoint pk (l : il) : bytes :=
+  match l with I0 => [] | IC x l' => bytes_of (len_of x) (Uint63.lsr x 3) ++ pk l' end.
 
 Definition E := Build_entry.
 Definition Cl := Build_client.
@@ -19,8 +41,26 @@ Inductive hstep :=
      windows cannot be requested through HTTP) *)
   | HSearchP (p : params) (code : Z) (ids : list N) (oldest : Z).
 
+(** One file line through the real codec.  [src]: the entry json.Marshal was
+    given (None for hand-written lines); [good_*]: the strings of the line Go's
+    time.Parse / net.ParseIP / netip.ParseAddr / base64 accept; what
+    decodeLogEntry did (panicked, decoded entry); readJSONValue of the three
+    searched keys; quickMatch verdicts (value, IDN form, strict, client table,
+    verdict) of the real searchCriterion on the line. *)
+Record qobs := { qo_v : bytes; qo_a : bytes; qo_strict : bool; qo_quick : bool; qo_match : bool }.
+
 Inductive case :=
-  | CHist (me bf : Z) (c0 : config) (steps : list hstep).
+  | CHist (me bf : Z) (c0 : config) (steps : list hstep)
+  | CCodec (src : option centry) (line : bytes)
+           (good_time good_ip good_addr good_b64 : list bytes)
+           (panicked : bool) (dec : centry) (qh ip cid : bytes)
+           (cl : list (bytes * client)) (qs : list qobs).
+
+(** Constructors for the shard files. *)
+Definition CE := Build_centry.
+Definition CR := Build_crule.
+Definition RW := Build_rewrite.
+Definition QO := Build_qobs.
 
 Definition opt_len (o : option (list entry)) : Z :=
   match o with Some l => lenZ l | None => -1 end.
@@ -51,10 +91,72 @@ Fixpoint replay (me bf : Z) (s : state) (steps : list hstep) : bool :=
   | HSearchP p code ids oldest :: r => searchp_ok me bf s p code ids oldest && replay me bf s r
   end.
 
+(** *** codec cases *)
+Definition mem_b (s : bytes) (l : list bytes) : bool := existsb (eqb_bytes s) l.
+
+Definition mk_oracles (gt gi ga gb : list bytes) : oracles :=
+  {| o_time := fun s => mem_b s gt; o_ip := fun s => mem_b s gi;
+     o_addr := fun s => mem_b s ga; o_b64 := fun s => mem_b s gb |}.
+
+Definition rrv_eqb (a b : rrv) : bool :=
+  match a, b with
+  | RS x, RS y => eqb_bytes x y
+  | RNumber x, RNumber y => eqb_bytes x y
+  | RBoolean x, RBoolean y => Bool.eqb x y
+  | RNullV, RNullV => true
+  | RNested, RNested => true
+  | _, _ => false
+  end.
+
+Definition crule_eqb (a b : crule) : bool :=
+  eqb_bytes (cr_text a) (cr_text b) && eqb_bytes (cr_ip a) (cr_ip b) && (cr_id a =? cr_id b).
+
+(** Go maps have no order: compare sorted by key. *)
+Fixpoint ins_kv (x : Z * list rrv) (l : list (Z * list rrv)) : list (Z * list rrv) :=
+  match l with
+  | [] => [x]
+  | y :: r => if fst x <=? fst y then x :: l else y :: ins_kv x r
+  end.
+Definition sort_kv (l : list (Z * list rrv)) : list (Z * list rrv) := fold_right ins_kv [] l.
+
+Definition rewrite_eqb (a b : rewrite) : bool :=
+  (rw_rcode a =? rw_rcode b) &&
+  eqb_list (fun x y : Z * list rrv => (fst x =? fst y) && eqb_list rrv_eqb (snd x) (snd y))
+           (sort_kv (rw_resp a)) (sort_kv (rw_resp b)).
+
+Definition centry_eqb (a b : centry) : bool :=
+  eqb_list eqb_bytes (ce_s a) (ce_s b) && eqb_list Bool.eqb (ce_f a) (ce_f b) &&
+  eqb_list Z.eqb (ce_i a) (ce_i b) && eqb_list eqb_bytes (ce_iplist a) (ce_iplist b) &&
+  eqb_list crule_eqb (ce_rules a) (ce_rules b) && eqb_option rewrite_eqb (ce_rw a) (ce_rw b).
+
+Definition cfg_of (cl : list (bytes * client)) : config :=
+  {| enabled := true; file_enabled := true; mem_size := 1; ignored := []; clients := cl |}.
+
+(** The abstract entry (Model/QLog.v) a decoded entry stands for. *)
+Definition abs_entry (e : centry) : entry :=
+  {| e_id := 0; e_time := 0; e_len := 0; e_host := slot e sQH; e_ip := slot e sIP; e_cid := slot e sCID;
+     e_reason := ival e iReason; e_filtered := fval e fFiltered |}.
+
+Definition qobs_ok (cl : list (bytes * client)) (line : bytes) (d : centry) (q : qobs) : bool :=
+  let k := CTerm (qo_v q) (qo_a q) (qo_strict q) in
+  Bool.eqb (quick_line (cfg_of cl) line k) (qo_quick q) &&
+  Bool.eqb (crit_match (cfg_of cl) (abs_entry d) k) (qo_match q).
+
+Definition codec_ok (src : option centry) (line : bytes) (bt bi ba bb : list bytes)
+    (panicked : bool) (dec : centry) (qh ip cid : bytes) (cl : list (bytes * client)) (qs : list qobs) : bool :=
+  match src with Some e => eqb_bytes (encode e) line | None => true end &&
+  (let (p, d) := decode (mk_oracles bt bi ba bb) line in
+   Bool.eqb p panicked && (panicked || (centry_eqb d dec && forallb (qobs_ok cl line d) qs))) &&
+  eqb_bytes (read_json_value line pQH) qh &&
+  eqb_bytes (read_json_value line pIP) ip &&
+  eqb_bytes (read_json_value line pCID) cid.
+
 Definition case_ok (c : case) : bool :=
   match c with
   | CHist me bf c0 steps =>
       (me =? max_entry_size) && (bf =? buffer_size) && replay me bf (init c0) steps
+  | CCodec src line bt bi ba bb panicked dec qh ip cid cl qs =>
+      codec_ok src line bt bi ba bb panicked dec qh ip cid cl qs
   end.
 
 Definition mismatches := Base.Run.mismatches case_ok.
@@ -84,5 +186,21 @@ Fixpoint explain_steps (me bf : Z) (s : state) (steps : list hstep) : list (Z * 
        end, searchp_ok me bf s p code ids oldest) :: explain_steps me bf s r
   end.
 
+(** For codec cases: (0, ids unused, 0, flag) rows: encode agrees, decode
+    agrees (panic flag, entry), the three raw values agree, quick verdicts. *)
 Definition explain (c : case) :=
-  match c with CHist me bf c0 steps => explain_steps me bf (init c0) steps end.
+  match c with
+  | CHist me bf c0 steps => explain_steps me bf (init c0) steps
+  | CCodec src line bt bi ba bb panicked dec qh ip cid cl qs =>
+      let (p, d) := decode (mk_oracles bt bi ba bb) line in
+      [(100, [], 0, match src with Some e => eqb_bytes (encode e) line | None => true end);
+       (101, [], 0, Bool.eqb p panicked);
+       (102, [], 0, centry_eqb d dec);
+       (103, [], 0, eqb_list eqb_bytes (ce_s d) (ce_s dec));
+       (104, [], 0, eqb_list crule_eqb (ce_rules d) (ce_rules dec));
+       (105, [], 0, eqb_option rewrite_eqb (ce_rw d) (ce_rw dec));
+       (106, [], 0, forallb (qobs_ok cl line d) qs);
+       (107, [], 0, eqb_bytes (read_json_value line pQH) qh &&
+                    eqb_bytes (read_json_value line pIP) ip &&
+                    eqb_bytes (read_json_value line pCID) cid)]
+  end.
